@@ -27,7 +27,7 @@ NATIVE = {
 # property-level native batteries (full stack through the JAX compatibility shims, native/_compat.py)
 STACK = {"C01", "C02", "C03", "C04", "C05", "C08", "C16"}
 # further public-interface batteries with an oracle independent of the implementation
-PUBLIC = {"C06": [("seed_sites",), ("seed_context",)], "C07": [("seed_sites",)], "C12": [("smc_resample",)], "C10": [("smc_resample",)], "C20": [("state_space_native", "kalman"), ("state_space_native", "hmm")]}
+PUBLIC = {"C13": [("distributions_native",)], "C06": [("seed_sites",), ("seed_context",)], "C07": [("seed_sites",)], "C12": [("smc_resample",)], "C10": [("smc_resample",)], "C20": [("state_space_native", "kalman"), ("state_space_native", "hmm")]}
 
 
 def property_level_native(pid):
